@@ -4,6 +4,9 @@
    sides of the theorems in Properties/C09.v. *)
 From Coq Require Import List ZArith Bool Lia.
 From PM Require Import Base.Bytes.
+(* from the model ONLY the interface types are used below (op, out, fdres and the projection fd_bytes of a
+   descriptor script): the abstract machine [fifo_step] is written with the list functions of this file alone *)
+From PM Require Import Model.Cbuf.
 Import ListNotations.
 Local Open Scope Z_scope.
 
@@ -47,3 +50,49 @@ Definition fifo_line_text (q : list byte) (len lines : Z) : list byte :=
 
 (* what an expect pattern is matched against (device.c:_getregex_buf): the unread bytes with NUL shown as 0xFF *)
 Definition nul_to_ff (q : list byte) : list byte := map (fun b => if N.eqb b 0 then 255%N else b) q.
+
+(* ---- the abstract machine: a queue of capacity [cap] under the operations of the cbuf API --------------------
+   [fifo_step cap q o r q'] : operation [o] on queue [q] may show the caller [r] and leave [q'].
+   The two descriptor operations are non-deterministic in HOW MANY bytes move (the descriptor decides: short
+   reads, EAGAIN, EOF, short writes, errors), never in WHICH bytes or in their order:
+     - write_from_fd moves some prefix w of what the descriptor holds to the tail of the queue,
+     - read_to_fd moves some prefix of the queue to the descriptor.                                          *)
+Definition fifo_step (cap : Z) (q : list byte) (o : op) (r : out) (q' : list byte) : Prop :=
+  match o with
+  | OWrite bs =>
+      q' = fifo_write cap q bs /\ o_ret r = qlen bs /\ o_dropped r = fifo_dropped cap q bs
+  | OWriteFd fd len =>
+      exists w, fd_bytes fd = w ++ fd_bytes (o_fd r)
+        /\ q' = fifo_write cap q w /\ o_dropped r = fifo_dropped cap q w
+        /\ (0 < qlen w -> o_ret r = qlen w) /\ (qlen w = 0 -> o_ret r <= 0)
+  | OPeek len =>
+      q' = q /\ (if len <? 0 then o_ret r = -1 /\ o_bytes r = []
+                else o_ret r = Z.min len (qlen q) /\ o_bytes r = fifo_peek q len)
+  | ODrop len =>
+      if len <? -1 then q' = q /\ o_ret r = -1
+      else o_ret r = (if len =? -1 then qlen q else Z.min len (qlen q)) /\ q' = fifo_drop q (o_ret r)
+  | ORead len =>
+      if len <? 0 then q' = q /\ o_ret r = -1 /\ o_bytes r = []
+      else o_ret r = Z.min len (qlen q) /\ o_bytes r = fifo_peek q len /\ q' = fifo_drop q len
+  | OPeekLine len lines =>
+      q' = q /\ (if (len <? 0) || (lines <? -1) then o_ret r = -1 /\ o_bytes r = []
+                else o_ret r = fifo_line_count q len lines /\ o_bytes r = fifo_line_text q len lines)
+  | OReadLine len lines =>
+      if (len <? 0) || (lines <? -1) then q' = q /\ o_ret r = -1 /\ o_bytes r = []
+      else o_ret r = fifo_line_count q len lines /\ o_bytes r = fifo_line_text q len lines
+           /\ q' = fifo_drop q (o_ret r)
+  | OReadFd script len =>
+      let k := Z.max 0 (o_ret r) in
+      k <= qlen q /\ (0 <= len -> k <= len) /\ (len < -1 -> o_ret r = -1)
+      /\ o_bytes r = fifo_peek q k /\ q' = fifo_drop q k
+  | OFlush => q' = []
+  | OUsed => q' = q /\ o_ret r = qlen q
+  end.
+
+(* a whole history *)
+Fixpoint fifo_run (cap : Z) (q : list byte) (ops : list op) (outs : list out) (q' : list byte) : Prop :=
+  match ops, outs with
+  | [], [] => q' = q
+  | o :: ops', r :: outs' => exists q1, fifo_step cap q o r q1 /\ fifo_run cap q1 ops' outs' q'
+  | _, _ => False
+  end.
